@@ -642,10 +642,9 @@ static cfg_opt_t *cfg_addopt(cfg_t *cfg, char *key)
 	cfg->opts[num].name = strdup(key);
 	cfg->opts[num].type = CFGT_STR;
 
-	if (!cfg->opts[num].name) {
-		free(opts);
+	/* on failure the slot keeps being the CFG_END() marker */
+	if (!cfg->opts[num].name)
 		return NULL;
-	}
 
 	/* Set new CFG_END() */
 	memset(&cfg->opts[num + 1], 0, sizeof(cfg_opt_t));
